@@ -890,6 +890,19 @@ impl<S: 'static + StreamTrait> stream::Manager for AbstractStreamManager<S> {
 
     fn on_data(&mut self, frame: &StreamRef) -> Result<(), transport::Error> {
         let stream_id = StreamId::from_varint(frame.stream_id);
+
+        //= https://www.rfc-editor.org/rfc/rfc9000#section-19.8
+        //# An endpoint MUST terminate the connection with error
+        //# STREAM_STATE_ERROR if it receives a STREAM frame for a locally
+        //# initiated stream that has not yet been created, or for a send-only
+        //# stream.
+        if stream_id.stream_type().is_unidirectional()
+            && stream_id.initiator() == self.inner.local_endpoint_type
+        {
+            return Err(transport::Error::STREAM_STATE_ERROR
+                .with_reason("STREAM frame received for a send-only stream"));
+        }
+
         self.handle_stream_frame(stream_id, |stream, events| stream.on_data(frame, events))
     }
 
